@@ -140,7 +140,7 @@ Qed.
 
 Lemma wf_srcs r s : WF r -> WF (set_srcs r s).
 Proof. intros [H1 H2 H3 H4 H5]. constructor; assumption. Qed.
-Lemma wf_apply_srcs r s : WF r -> WF (apply_source_ids r s).
+Lemma wf_apply_srcs fx r s : WF r -> WF (apply_source_ids fx r s).
 Proof. intros H. unfold apply_source_ids. destruct s; [apply wf_srcs|]; exact H. Qed.
 
 Lemma cur_sorted r : WF r -> times_sorted (fi_data (r_index r)).
@@ -154,13 +154,13 @@ Proof.
   set (r1 := if clear then set_index r (r_orig r) else r) in *.
   assert (Hwf1 : WF r1 \/ (clear = true /\ k = KNone)).
   { destruct clear; [right; destruct Hc; [discriminate|split; [reflexivity|assumption]]|left; exact Hwf]. }
-  destruct (getitem fixed (r_index (apply_source_ids r1 s)) k) as [i|x] eqn:Eg.
+  destruct (getitem fixed (r_index (apply_source_ids fixed r1 s)) k) as [i|x] eqn:Eg.
   - inversion H; subst r' u. clear H.
-    assert (Hl : r_last (apply_source_ids r1 s) = r_last r) by (unfold apply_source_ids; destruct s, clear; reflexivity).
-    assert (Ho : r_orig (apply_source_ids r1 s) = r_orig r) by (unfold apply_source_ids; destruct s, clear; reflexivity).
+    assert (Hl : r_last (apply_source_ids fixed r1 s) = r_last r) by (unfold apply_source_ids; destruct s, clear; reflexivity).
+    assert (Ho : r_orig (apply_source_ids fixed r1 s) = r_orig r) by (unfold apply_source_ids; destruct s, clear; reflexivity).
     assert (Hsub : subseq (fi_data i) (fi_data (r_orig r))).
     { apply getitem_subseq in Eg. eapply subseq_trans; [exact Eg|].
-      replace (r_index (apply_source_ids r1 s)) with (r_index r1) by (unfold apply_source_ids; destruct s; reflexivity).
+      replace (r_index (apply_source_ids fixed r1 s)) with (r_index r1) by (unfold apply_source_ids; destruct s; reflexivity).
       subst r1. destruct clear; [apply subseq_refl|apply Hwf]. }
     destruct Hwf as [Hinc Hnn Hso Hsub0 Hcur].
     constructor; cbn [set_next set_cursor set_index r_orig r_index r_next r_last]; rewrite ?Ho, ?Hl; try assumption.
